@@ -120,26 +120,24 @@ theorem inv_of_spaces_eq {st st' : St} (h : Inv st) (hs : st'.spaces = st.spaces
   subst hs
   exact ⟨⟨h.wf.nodup, h.wf.bases, h.wf.mro, h.wf.keys, h.wf.tree⟩, h.good, ⟨h.disj.cr, h.disj.child, hg⟩⟩
 
-theorem inv_setGlobal (kw : List String) (st st' : St) (h : Inv st) (name : String)
-    (hop : st.setGlobal kw name = some st') : Inv st' := by
+theorem inv_setGlobal (st st' : St) (h : Inv st) (name : String)
+    (hop : st.setGlobal name = some st') : Inv st' := by
   unfold St.setGlobal at hop
   split at hop
   · cases hop
   · rename_i hc
-    split at hop
-    · cases hop
-    · simp only [Option.some.injEq] at hop
-      subst hop
-      refine inv_of_spaces_eq h rfl ?_
-      intro n hn
-      simp only at hn
-      show n ∉ st.childNames []
-      split at hn
+    simp only [Option.some.injEq] at hop
+    subst hop
+    refine inv_of_spaces_eq h rfl ?_
+    intro n hn
+    simp only at hn
+    show n ∉ st.childNames []
+    split at hn
+    · exact h.disj.glob n hn
+    · simp only [List.mem_append, List.mem_singleton] at hn
+      rcases hn with hn | rfl
       · exact h.disj.glob n hn
-      · simp only [List.mem_append, List.mem_singleton] at hn
-        rcases hn with hn | rfl
-        · exact h.disj.glob n hn
-        · simpa using hc
+      · simpa using hc
 
 theorem inv_delGlobal (st st' : St) (h : Inv st) (name : String)
     (hop : st.delGlobal name = some st') : Inv st' := by
